@@ -427,7 +427,7 @@ func init() {
 	})
 	vc.Register(&vc.Check{
 		ID: "C16", Level: "model_checking",
-		Rule: "(a) Package.StatisticalMissSegments on EVERY set of pairwise disjoint received chunks for file sizes 1..10 (thorough 12), plus sizes up to 600 with 255 single-byte gaps, adjacent chunks, gaps at start/middle/end; (b) the wire form: T0x1212.ReplyBody -> P0x9212.Encode decoded by the reference and by P0x9212.Parse for every such gap list; (c) over the socket for sizes <= 5: announce, send every disjoint chunk set in every order (<= 3 chunks), 0x1212 -> 'retransmit' with exactly the gaps, resend exactly those, 0x1212 -> 'complete'. " +
+		Rule: "(a) Package.StatisticalMissSegments on EVERY set of pairwise disjoint received chunks for file sizes 1..10 (thorough 12), plus every chunk set of the small shapes scaled by 2^28, 2^29, 0x1FFFFFFF, 0x33333333, 0x7FFFFFFF and 0xFFFFFFFF (files of gigabytes: offsets and lengths beyond 2^31, sizes up to 2^32-1), plus sizes up to 600 with 255 single-byte gaps, adjacent chunks, gaps at start/middle/end; (b) the wire form: T0x1212.ReplyBody -> P0x9212.Encode decoded by the reference and by P0x9212.Parse for every such gap list; (c) over the socket for sizes <= 5: announce, send every disjoint chunk set in every order (<= 3 chunks), 0x1212 -> 'retransmit' with exactly the gaps, resend exactly those, 0x1212 -> 'complete'. " +
 			"states = distinct (size, received set) states, transitions = evaluations. Non-trivial = at least one gap",
 		Assumptions: []string{"reference interval complement in checks/c15.go"},
 		Run:         c16Run,
@@ -660,25 +660,33 @@ func isIdentity(o []int) bool {
 type missCase struct {
 	Size   int      `json:"size"`
 	Chunks [][2]int `json:"received"` // offset, length
+	// Unit > 1: size, offsets and lengths are all multiplied by Unit (files of gigabytes: offsets beyond 2^31, sizes
+	// up to 2^32-1); the reference is computed on the small shape and scaled
+	Unit int `json:"unit,omitempty"`
 }
 
 func missEval(c missCase) (sig, diag string) {
-	p := &attachment.Package{FileName: "f", FileSize: uint32(c.Size), OffsetRecord: map[int]int{}, OffsetDataRecord: map[int][]byte{}}
+	unit := max(c.Unit, 1)
+	p := &attachment.Package{FileName: "f", FileSize: uint32(c.Size * unit), OffsetRecord: map[int]int{}, OffsetDataRecord: map[int][]byte{}}
 	var got []upChunk
 	for _, ch := range c.Chunks {
-		p.OffsetRecord[ch[0]] = ch[1]
-		p.CurrentSize += uint32(ch[1])
+		p.OffsetRecord[ch[0]*unit] = ch[1] * unit
+		p.CurrentSize += uint32(ch[1] * unit)
 		got = append(got, upChunk{Off: ch[0], Len: ch[1]})
 	}
 	want := upMissing(c.Size, got, 0)
+	for i := range want {
+		want[i][0] *= uint32(unit)
+		want[i][1] *= uint32(unit)
+	}
 	var res []model.P0x9212RetransmitPacket
-	where := fmt.Sprintf("size %d received %v", c.Size, c.Chunks)
+	where := fmt.Sprintf("size %d received %v (x unit %d)", c.Size, c.Chunks, unit)
 	// the package also remembers which chunk arrived LAST (Offset): the answer must not depend on it - every received
 	// chunk is tried as the last arrival (the last one tried is the one whose answer is checked in full below)
 	lasts := append([][2]int{{0, 0}}, c.Chunks...)
 	var first []model.P0x9212RetransmitPacket
 	for li, last := range lasts {
-		p.Offset = last[0]
+		p.Offset = last[0] * unit
 		if pn := vc.Catch(func() { res = p.StatisticalMissSegments() }); pn != "" {
 			return "miss:panic:" + vc.PanicSite(pn), "StatisticalMissSegments panicked: " + pn
 		}
@@ -703,7 +711,7 @@ func missEval(c missCase) (sig, diag string) {
 	t := &model.T0x1212{P0x9212RetransmitPacketList: res}
 	m := jt808.NewJTMessage()
 	m.Header.ProtocolVersion = consts.JT808Protocol2013
-	m.Body = exact(ref.Body1211("f.bin", 2, uint32(c.Size)))
+	m.Body = exact(ref.Body1211("f.bin", 2, uint32(c.Size*unit)))
 	var body []byte
 	var err error
 	if pn := vc.Catch(func() { body, err = t.ReplyBody(m) }); pn != "" || err != nil {
@@ -791,6 +799,13 @@ func c16Run(ctx *vc.Ctx, rep *vc.Report) {
 		if ctx.Expired() {
 			rep.Truncated = true
 			return
+		}
+	}
+	// files of gigabytes: every chunk set of the small shapes scaled so that offsets and lengths pass 2^31 and the
+	// size approaches 2^32 (size and offsets are 32-bit unsigned on the wire)
+	for _, u := range []struct{ unit, maxSize int }{{1 << 28, 10}, {1 << 29, 7}, {0x1FFFFFFF, 8}, {0x33333333, 5}, {0x7FFFFFFF, 2}, {0xFFFFFFFF, 1}} {
+		for size := 1; size <= min(u.maxSize, maxSize); size++ {
+			chunkSets(size, func(cs [][2]int) { tryMiss(missCase{Size: size, Chunks: cs, Unit: u.unit}) })
 		}
 	}
 	// large: 255 single-byte gaps, adjacent chunks, gap at start / middle / end
